@@ -1,3 +1,4 @@
+import Mp.FoldProofs
 import Mp.ProofsL2
 import Mp.ProofsL3
 /-! C01 — property theorems (proved in the imported modules; statements are checked there, axioms audited here). -/
@@ -6,3 +7,5 @@ import Mp.ProofsL3
 #print axioms Mp.L2.path_refines
 #print axioms Mp.L2.path_refines_struct
 #print axioms Mp.L2.path_carrier_independent
+#print axioms Mp.runeEqFold_ascii
+#print axioms Mp.equalFold_ascii
